@@ -3,14 +3,17 @@
 # working tree, run EVERY check's quick tier, demand exit 0 from all of them, restore the tree.
 # usage: selftest/benign.sh [name ...]
 set -u
-cd /verif
+cd "$(dirname "$0")/.."
+# under `vp run --with-repo` the job works on its private copy of the repository (VP_RUN_REPO), never on the live /repo
+REPO="${VP_RUN_REPO:-/repo}"
+if [ -n "${VP_RUN_REPO:-}" ]; then sed -i "s#path = \"/repo\"#path = \"$VP_RUN_REPO\"#" sim/Cargo.toml; fi
 [ $# -gt 0 ] && LIST="$*" || LIST=$(ls selftest/benign 2>/dev/null)
-if [ -n "$(git -C /repo status --porcelain)" ]; then echo "repo working tree not clean" >&2; exit 2; fi
+if [ -n "$(git -C "$REPO" status --porcelain)" ]; then echo "repo working tree not clean" >&2; exit 2; fi
 fail=0
 for name in $LIST; do
   d=selftest/benign/$name
   [ -f $d/patch.diff ] || continue
-  git -C /repo apply $PWD/$d/patch.diff || { echo "PATCH-DOES-NOT-APPLY $name"; fail=1; continue; }
+  git -C "$REPO" apply $PWD/$d/patch.diff || { echo "PATCH-DOES-NOT-APPLY $name"; fail=1; continue; }
   bad=""
   for id in C04 C05 C09 C11 C13 C15 C16; do
     out=$(VERIF_NO_EVIDENCE=1 ./check $id quick 2>&1); rc=$?
@@ -21,6 +24,6 @@ for name in $LIST; do
     fi
   done
   if [ -z "$bad" ]; then echo "QUIET   $name"; else echo "ALARM   $name:$bad"; fail=1; fi
-  git -C /repo checkout -- .
+  git -C "$REPO" checkout -- .
 done
 exit $fail
